@@ -1,10 +1,11 @@
 -- REGENERATED from /repo by tools/extract on every run. Do not edit.
 namespace CaddyModel.Gen
 
-/-- order of `storage.Store` calls in `genRoot` (modules/caddypki/ca.go), by key function -/
+/-- order of `storage.Store` calls performed by `genRoot` (modules/caddypki/ca.go; helpers of the same file
+    inlined), by key function -/
 def genRootStores : List String := ["storageKeyRootKey", "storageKeyRootCert"]
 
-/-- order of `storage.Store` calls in `genIntermediate` -/
+/-- order of `storage.Store` calls performed by `genIntermediate` -/
 def genIntermediateStores : List String := ["storageKeyIntermediateKey", "storageKeyIntermediateCert"]
 
 /-- the key whose absence makes `loadOrGenRoot` generate a new root (its first `storage.Load`) -/
